@@ -170,3 +170,30 @@ package core
 //@   before call:Unlock#1 assert s.closed && len(s.listeners) == 0 && len(s.dialers) == 0
 //@   before call:Unlock#1 assert s.pipehook == at("call:Lock#1", s.pipehook) && s.proto == at("call:Lock#1", s.proto)
 //@   ensures called("CloseAll")
+//@
+//@ func (*socket).GetOption
+//@   ghost perr = result1 at call:GetOption#1
+//@   ghost pval = result0 at call:GetOption#1
+//@   ensures perr != mangos.ErrBadOption ==> result1 == perr && result0 == pval
+//@   ensures perr == mangos.ErrBadOption && name == mangos.OptionMaxRecvSize ==> isnil(result1) && result0 == iface(s.maxRxSize)
+//@   ensures perr == mangos.ErrBadOption && name == mangos.OptionReconnectTime ==> isnil(result1) && is_duration(result0) && int_of(result0) == s.reconnMinTime
+//@   ensures perr == mangos.ErrBadOption && name == mangos.OptionMaxReconnectTime ==> isnil(result1) && is_duration(result0) && int_of(result0) == s.reconnMaxTime
+//@   ensures perr == mangos.ErrBadOption && name == mangos.OptionDialAsynch ==> isnil(result1) && result0 == iface(s.dialAsynch)
+//@   ensures perr == mangos.ErrBadOption && name != mangos.OptionMaxRecvSize && name != mangos.OptionReconnectTime && name != mangos.OptionMaxReconnectTime && name != mangos.OptionDialAsynch ==> result1 == mangos.ErrBadOption && isnil(result0)
+//@
+//@ func (*dialer).SetOption
+//@   ensures n == mangos.OptionReconnectTime ==> (isnil(result) <==> is_duration(v) && int_of(v) >= 0)
+//@   ensures n == mangos.OptionReconnectTime && isnil(result) ==> d.reconnMinTime == int_of(v)
+//@   ensures n == mangos.OptionMaxReconnectTime ==> (isnil(result) <==> is_duration(v) && int_of(v) >= 0)
+//@   ensures n == mangos.OptionMaxReconnectTime && isnil(result) ==> d.reconnMaxTime == int_of(v)
+//@   ensures n == mangos.OptionDialAsynch ==> (isnil(result) <==> is_bool(v))
+//@   ensures n == mangos.OptionDialAsynch && isnil(result) ==> d.asynch == bool_of(v)
+//@   ensures (n == mangos.OptionReconnectTime || n == mangos.OptionMaxReconnectTime || n == mangos.OptionDialAsynch) && !isnil(result) ==> result == mangos.ErrBadValue && unchanged(d.reconnMinTime, d.reconnMaxTime, d.asynch)
+//@   before call:SetOption#1 assert n != mangos.OptionReconnectTime && n != mangos.OptionMaxReconnectTime && n != mangos.OptionDialAsynch && arg0 == n && arg1 == v
+//@
+//@ func (*dialer).GetOption
+//@   ensures n == mangos.OptionReconnectTime ==> isnil(result1) && is_duration(result0) && int_of(result0) == d.reconnMinTime
+//@   ensures n == mangos.OptionMaxReconnectTime ==> isnil(result1) && is_duration(result0) && int_of(result0) == d.reconnMaxTime
+//@   ensures n == mangos.OptionDialAsynch ==> isnil(result1) && result0 == iface(d.asynch)
+//@   before call:GetOption#1 assert n != mangos.OptionReconnectTime && n != mangos.OptionMaxReconnectTime && n != mangos.OptionDialAsynch && arg0 == n
+//@   before call:GetOption#2 assert arg0 == n
